@@ -68,6 +68,7 @@ type c02Result struct {
 	NExp     int64   `json:"nexp"`   // Expiration removals reported (all keys)
 	St       []int64 `json:"st"`     // hits, misses, evictions, evictionWeight, loadOk, loadFail
 	StMid    []int64 `json:"stmid"`  // a snapshot taken while the clients were running (monotonicity)
+	ChurnNC  int64   `json:"churnnc"` // filler Computes whose callback did not run exactly once
 }
 
 var c02Points = map[string]bool{
@@ -115,7 +116,7 @@ func runC02Scenario(sc c02Scenario) c02Result {
 	}
 	c := Must(o)
 	defer c.StopAllGoroutines()
-	var loads atomic.Int64
+	var loads, churnNC atomic.Int64
 	loaderOf := func(cid int) Loader[int, int] {
 		return LoaderFunc[int, int](func(ctx context.Context, k int) (int, error) {
 			// the load has started: the in-flight record exists; writes called from now on must win over its result
@@ -262,7 +263,18 @@ func runC02Scenario(sc c02Scenario) c02Result {
 	churn := func() {
 		for round := 0; round < 2 && !stop.Load(); round++ {
 			for i := 0; i < sc.Churn; i++ {
-				c.Set(1000+i, i)
+				if i%2 == 0 {
+					c.Set(1000+i, i)
+					continue
+				}
+				// every other filler is written by Compute: its callback must run exactly once, also in the call
+				// that makes the table grow
+				nc := 0
+				lookups.Add(1) // Compute is a counting operation (C20)
+				c.Compute(1000+i, func(old int, found bool) (int, ComputeOp) { nc++; return i, WriteOp })
+				if nc != 1 {
+					churnNC.Add(1)
+				}
 			}
 			for i := 0; i < sc.Churn; i++ {
 				c.Invalidate(1000 + i)
@@ -339,6 +351,7 @@ func runC02Scenario(sc c02Scenario) c02Result {
 	}
 	res.St = vec()
 	res.Lookups, res.Loads, res.NOver, res.NExp = lookups.Load(), loads.Load(), nover.Load(), nexp.Load()
+	res.ChurnNC = churnNC.Load()
 	mu.Lock()
 	sort.Slice(res.Events, func(i, j int) bool { return res.Events[i].Seq < res.Events[j].Seq })
 	for _, e := range res.Events {
